@@ -114,6 +114,10 @@ UNITS = {
         'engine': 'verus', 'complete': True,
         'title': 'hexescape::<N> closures: exactly N digits, hex value, Unicode scalar values only (unbounded, under assumed from_str_radix / char::from_u32 contracts)',
     },
+    'V11': {
+        'engine': 'verus', 'complete': True,
+        'title': 'document grammar date-time assembly: closures of date_time / partial_time / time_offset, full_date_ result, From<Date>/From<Time> for Datetime: every part lands unchanged in its field (unbounded)',
+    },
     'V10': {
         'engine': 'verus', 'complete': True, 'witness': ['witness-k8'], 'replay': 'replay-k8',
         'title': 'Display for TomlError: never panics, prints line + 1 / column + 1 and the caret under the column, whole text pinned (unbounded, under the assumed contract of translate_position and the TomlError invariant)',
@@ -175,12 +179,12 @@ UNITS = {
 # property -> tier -> unit list
 PLAN = {
     'C10': {'quick': ['V1', 'K1'], 'thorough': ['V1', 'K1']},
-    'C04': {'quick': ['V1', 'V3', 'V4', 'V5', 'V6', 'V7', 'V9', 'V10', 'K1', 'K12'], 'thorough': ['V1', 'V3', 'V4', 'V5', 'V6', 'V7', 'V9', 'V10', 'K1', 'K12', 'K8t', 'K3t', 'K5']},
+    'C04': {'quick': ['V1', 'V3', 'V4', 'V5', 'V6', 'V7', 'V9', 'V10', 'V11', 'K1', 'K12'], 'thorough': ['V1', 'V3', 'V4', 'V5', 'V6', 'V7', 'V9', 'V10', 'V11', 'K1', 'K12', 'K8t', 'K3t', 'K5']},
     'C11': {'quick': ['K7', 'K7s', 'K6e', 'K6t', 'K6d', 'V8', 'K11f'], 'thorough': ['K7', 'K7s', 'K6e', 'K6t', 'K6d', 'V8', 'K11f']},
     'C01': {'quick': ['K1', 'K7', 'V4', 'V8', 'V9', 'K2'], 'thorough': ['K1', 'K7', 'V4', 'V8', 'V9', 'K2', 'K2y', 'K5']},
-    'C02': {'quick': ['K2', 'K7s', 'K6t', 'K6d', 'V5', 'V7', 'V8', 'V9'], 'thorough': ['K2', 'K2y', 'K7s', 'K6t', 'K6d', 'V5', 'V7', 'V8', 'V9', 'K5']},
+    'C02': {'quick': ['K2', 'K7s', 'K6t', 'K6d', 'V5', 'V7', 'V8', 'V9', 'V11'], 'thorough': ['K2', 'K2y', 'K7s', 'K6t', 'K6d', 'V5', 'V7', 'V8', 'V9', 'V11', 'K5']},
     'C05': {'quick': ['V3', 'K12'], 'thorough': ['V3', 'K12']},
-    'C12': {'quick': ['V4', 'V5', 'V6', 'V7', 'K2', 'K3q'], 'thorough': ['V4', 'V5', 'V6', 'V7', 'K2', 'K2y', 'K3q', 'K3t', 'K3a']},
+    'C12': {'quick': ['V4', 'V5', 'V6', 'V7', 'V11', 'K2', 'K3q'], 'thorough': ['V4', 'V5', 'V6', 'V7', 'V11', 'K2', 'K2y', 'K3q', 'K3t', 'K3a']},
     'C14': {'quick': ['K11', 'K14', 'K14r'], 'thorough': ['K11', 'K14', 'K14r']},
     'C15': {'quick': ['V10', 'K8'], 'thorough': ['V10', 'K8', 'K8t']},
 }
